@@ -46,7 +46,12 @@ type PathCase struct {
 	Passive bool     `json:"passive"` // visitor does not touch matched nodes (C05/C20 load accounting)
 	Consume bool     `json:"consume"` // visitor is BytesConsumingMatcher (C06 entity access)
 	MissK   int      `json:"missk"`   // make the k-th block of the target entity unavailable (0 = none)
+	StaleFS bool     `json:"stalefs"` // multi-block files carry a FileSize that covers their first child only
+	Again   bool     `json:"again"`   // the traversal is run twice in this process; the second run is the one recorded
 }
+
+// pathStaleFS is PathCase.StaleFS of the case being built
+var pathStaleFS bool
 
 var renames = []map[string]string{
 	{"a": "a", "b": "b", ".": ".", "..": "..", "x": "absent"},
@@ -56,12 +61,26 @@ var renames = []map[string]string{
 	{"a": "Name", "b": "b", ".": ".", "..": "..", "x": "Data"},
 }
 
+// allRenames adds two tables taken from the mined fanout-8 universe (the sharded directories of the path trees
+// have fanout 8): the two root entries "a" and "." share 24 hash bits (a chain of 8 shards below the directory's root), and an absent
+// name that is a proper suffix of the member "a" and hashes into the member's bucket.
+func allRenames() []map[string]string {
+	u := mineUniverse(8, "plain")
+	return append(append([]map[string]string{}, renames...),
+		map[string]string{"a": u[10], ".": u[11], "b": "b", "..": "..", "x": "absent"}, // "a" and "." are the two root entries
+		map[string]string{"a": u[8], "b": "b", ".": ".", "..": "..", "x": u[9]})
+}
+
 type builtNode struct {
 	c       cid.Cid
 	size    uint64
 	content []byte
 	blocks  []cid.Cid // blocks of this entity in depth-first order (the node itself first)
+	dw      *DirWalk  // sharded directories: the independent walker's shard table
 }
+
+// pathNameIDs numbers the model names of the path trees (the ids the shard tables of the trace use)
+var pathNameIDs = map[string]int{"a": 1, ".": 2, "b": 3, "..": 4, "x": 5}
 
 func fileContent(kind string, salt int) []byte {
 	if kind == "file1" {
@@ -87,6 +106,14 @@ func buildPTree(st *Store, n PNode, path []string, names map[string]string, out 
 		}
 		bn := &builtNode{c: l.(cidlink.Link).Cid, size: sz, content: content}
 		_ = before
+		if pathStaleFS && n.Kind == "fileN" {
+			nd, err := rewriteOwn(st, bn.c, "shortfs", true)
+			if err != nil {
+				return nil, err
+			}
+			bn.c = nd.Cid()
+			bn.size, _ = nd.Size()
+		}
 		if fw, err := walkFile(st, bn.c); err == nil {
 			for _, b := range fw.Blocks {
 				bn.blocks = append(bn.blocks, b.cid)
@@ -129,10 +156,15 @@ func buildPTree(st *Store, n PNode, path []string, names map[string]string, out 
 		}
 		bn := &builtNode{c: l.(cidlink.Link).Cid, size: sz}
 		if n.Kind == "hamt" {
-			if dw, err := walkDir(st, bn.c, nil); err == nil {
+			univ := make([]string, len(pathNameIDs))
+			for m, id := range pathNameIDs {
+				univ[id-1] = names[m]
+			}
+			if dw, err := walkDir(st, bn.c, univ); err == nil {
 				for _, s := range dw.Shards {
 					bn.blocks = append(bn.blocks, s.cid)
 				}
+				bn.dw = dw
 			}
 		} else {
 			bn.blocks = []cid.Cid{bn.c}
@@ -182,16 +214,42 @@ func (pc *pathClasses) classOf(c cid.Cid) int {
 }
 
 func runPathCase(pc *PathCase, tr *Tr) error {
+	tr.Emit(M{"ev": "reset", "case": caseString(pc)})
+	var prev M
+	if pc.Again {
+		// the same traversal has already run once in this process (fresh store, link system and root node each time)
+		var err error
+		if prev, err = pathOnce(pc); err != nil {
+			return err
+		}
+	}
+	ev, err := pathOnce(pc)
+	if err != nil {
+		return err
+	}
+	ev["again"] = pc.Again
+	ev["prevLoads"] = []int{}
+	if prev != nil {
+		ev["prevLoads"] = prev["loads"]
+	}
+	tr.Emit(ev)
+	return nil
+}
+
+// pathOnce builds the tree in a fresh store, runs the traversal and returns its "walk" event.
+func pathOnce(pc *PathCase) (M, error) {
 	st := NewStore()
-	names := renames[pc.Names%len(renames)]
+	rn := allRenames()
+	names := rn[pc.Names%len(rn)]
 	back := map[string]string{}
 	for k, v := range names {
 		back[v] = k
 	}
 	built := map[string]*builtNode{}
+	pathStaleFS = pc.StaleFS
 	root, err := buildPTree(st, pc.Tree, nil, names, built)
 	if err != nil {
-		return fmt.Errorf("%s: %w", pc.ID, err)
+		return nil, fmt.Errorf("%s: %w", pc.ID, err)
 	}
 	// block classes: every block of the tree in depth-first order of the model tree
 	cls := &pathClasses{m: map[string]int{}}
@@ -208,7 +266,19 @@ func runPathCase(pc *PathCase, tr *Tr) error {
 			blocksOf[k] = append(blocksOf[k], cls.m[key(c)])
 		}
 		pp := append([]string{}, path...)
-		blockTable = append(blockTable, M{"path": pp, "cls": append([]int{}, blocksOf[k]...)})
+		// sharded directories: the shard table (block classes renumbered to this trace's classes; value links are not
+		// needed and left 0), from which the trace specification derives the shards a lookup visits
+		shards := []M{}
+		if dw := built[k].dw; dw != nil {
+			for _, sh := range dw.Shards {
+				slots := []M{}
+				for _, sl := range sh.Slots {
+					slots = append(slots, M{"b": sl.B, "t": sl.T, "name": sl.Name, "link": 0, "idx": sl.Idx})
+				}
+				shards = append(shards, M{"parent": sh.Parent, "c": cls.m[key(sh.cid)], "slots": slots})
+			}
+		}
+		blockTable = append(blockTable, M{"path": pp, "cls": append([]int{}, blocksOf[k]...), "kind": n.Kind, "S": shards})
 		for _, kid := range n.Kids {
 			order(kid.Node, append(append([]string{}, path...), kid.Name))
 		}
@@ -226,18 +296,16 @@ func runPathCase(pc *PathCase, tr *Tr) error {
 	} else {
 		selNode = unixfsnode.UnixFSPathSelectorBuilder(ps, targetSpec(pc.Target), pc.MP)
 	}
-	tr.Emit(M{"ev": "reset", "case": caseString(pc)})
 	sel, err := selector.CompileSelector(selNode)
 	if err != nil {
-		tr.Emit(M{"ev": "walk", "e": "compile", "tree": pc.Tree, "segs": pc.Segs, "target": pc.Target, "mp": pc.MP, "matches": []M{},
-			"loads": []int{}, "failed": []int{}, "blocks": []M{}, "passive": pc.Passive, "consume": pc.Consume, "missing": []int{}})
-		return nil
+		return M{"ev": "walk", "segIds": []int{}, "segDigits": [][]int{}, "e": "compile", "tree": pc.Tree, "segs": pc.Segs, "target": pc.Target, "mp": pc.MP, "matches": []M{},
+			"loads": []int{}, "failed": []int{}, "blocks": []M{}, "passive": pc.Passive, "consume": pc.Consume, "missing": []int{}}, nil
 	}
 	ls := st.LinkSystem()
 	unixfsnode.AddUnixFSReificationToLinkSystem(ls)
 	rootNode, err := loadNode(ls, root.c)
 	if err != nil {
-		return err
+		return nil, err
 	}
 	st.logLoads = true
 	missing := []int{}
@@ -311,9 +379,13 @@ func runPathCase(pc *PathCase, tr *Tr) error {
 		werr = pm
 	}
 	loads, failed := st.TakeLoads()
-	tr.Emit(M{"ev": "walk", "e": errClass(werr), "tree": pc.Tree, "segs": pc.Segs, "target": pc.Target, "mp": pc.MP, "matches": matches,
-		"loads": classes(cls, loads), "failed": classes(cls, failed), "blocks": blockTable, "passive": pc.Passive || pc.Consume, "consume": pc.Consume, "missing": missing, "pathstr": ps})
-	return nil
+	segIDs, segDigits := []int{}, [][]int{}
+	for i, sg := range pc.Segs {
+		segIDs = append(segIDs, pathNameIDs[sg])
+		segDigits = append(segDigits, digitsOf(real[i], 3)) // the sharded directories of these trees have fanout 8
+	}
+	return M{"ev": "walk", "segIds": segIDs, "segDigits": segDigits, "e": errClass(werr), "tree": pc.Tree, "segs": pc.Segs, "target": pc.Target, "mp": pc.MP, "matches": matches,
+		"loads": classes(cls, loads), "failed": classes(cls, failed), "blocks": blockTable, "passive": pc.Passive || pc.Consume, "consume": pc.Consume, "missing": missing, "pathstr": ps}, nil
 }
 
 func init() {
@@ -351,15 +423,27 @@ func init() {
 				c.Segs = []string{}
 			}
 			pc := &PathCase{Fam: "path", ID: fmt.Sprintf("path-%d", i), Tree: c.Tree, Segs: c.Segs, Target: c.Target, MP: c.MP,
-				Pres: i % 5, Names: (i / 5) % 5, Entry: "builder", Passive: *passive}
+				Pres: i % 5, Names: (i / 5) % 7, Entry: "builder", Passive: *passive}
 			if c.Target == "match" && !c.MP && i%3 == 0 {
 				pc.Entry = "selector"
 			}
 			i++
 			if !*consume {
-				return runPathCase(pc, tr)
+				if err := runPathCase(pc, tr); err != nil {
+					return err
+				}
+				if !*passive {
+					return nil
+				}
+				// load accounting: the same traversal once more in this process, on a fresh store, link system and root
+				// node - what it requests must not depend on what earlier traversals have already seen
+				again := *pc
+				again.ID += "-again"
+				again.Again = true
+				return runPathCase(&again, tr)
 			}
 			pc.Consume = true
+			pc.StaleFS = i%2 == 0
 			if err := runPathCase(pc, tr); err != nil {
 				return err
 			}
